@@ -99,50 +99,61 @@ Fixpoint register (es : list entry) (names : list (str * Z)) (r : reg) : M reg :
     end
   end.
 
-(* py7zr.py 608-617 *)
-Fixpoint make_dirs (ds : list ppath) : M unit :=
+(* the real place of the destination, taken once before anything is written: os.path.realpath(path or
+   os.getcwd()); root = None stands for the unrepaired code, which has none of the real-path checks *)
+Definition dest_path : ppath := match dest with Some p => p | None => mkP 1 cwd end.
+Definition real_root : M rpath :=
+  fun s => match py_realpath (s_fs s) cwd dest_path with Some q => Ret q s | None => Exc XLoop s end.
+Definition guard (root : option rpath) (p : ppath) : M unit :=
+  match root with Some r => check_inside cwd r p | None => ret tt end.
+
+(* py7zr.py: the directory pre-pass *)
+Fixpoint make_dirs (root : option rpath) (ds : list ppath) : M unit :=
   match ds with
   | [] => ret tt
   | d :: ds' =>
+    let* _ := guard root (pparent d) in
     let* _ := catch (path_mkdir cwd (mkdir_fuel d) d true false) (fun x =>
       match x with
       | XExist => let* isd := path_is_dir cwd d in if isd then ret tt else raise XDecomp
       | _ => raise x
       end) in
-    make_dirs ds'
+    make_dirs root ds'
   end.
 
 (* one member in Worker._extract_single: py7zr.py 1395-1444 *)
-Definition extract_one (eo : entry * option ppath) : M unit :=
+Definition extract_one (root : option rpath) (eo : entry * option ppath) : M unit :=
   let '(e, o) := eo in
   match o with
   | None => ret tt
   | Some fileish =>
+    let* _ := guard root (pparent fileish) in
     let* _ := path_mkdir cwd (mkdir_fuel (pparent fileish)) (pparent fileish) true true in
-    if e_empty e then path_touch cwd fileish
+    if e_empty e then (let* _ := guard root fileish in path_touch cwd fileish)
     else if e_kind e =? 2 then
       if is_path_valid (pjoin (pparent fileish) (e_data e)) cwd dest then
         let* ex := path_exists cwd fileish in
         let* _ := (if ex then sys_unlink cwd fileish else ret tt) in
         sys_symlink cwd (pparse (e_data e)) fileish
       else raise XBad7z
-    else sys_open_wb cwd fileish (e_data e)
+    else (let* _ := guard root fileish in sys_open_wb cwd fileish (e_data e))
   end.
 
-Fixpoint extract_each (l : list (entry * option ppath)) : M unit :=
+Fixpoint extract_each (root : option rpath) (l : list (entry * option ppath)) : M unit :=
   match l with
   | [] => ret tt
-  | eo :: l' => let* _ := extract_one eo in extract_each l'
+  | eo :: l' => let* _ := extract_one root eo in extract_each root l'
   end.
 
 (* py7zr.py 638-655 *)
-Fixpoint post_pass (l : list (ppath * entry)) : M unit :=
+Fixpoint post_pass (root : option rpath) (l : list (ppath * entry)) : M unit :=
   match l with
   | [] => ret tt
   | (o, e) :: l' =>
+    let* _ := guard root o in
     let* _ := (if e_mtime e =? 1 then sys_utime cwd o else ret tt) in
     let* _ := (if e_chmod e then sys_chmod cwd o else ret tt) in
-    post_pass l'
+    post_pass root l'
   end.
 
 (* mode 0: one folder (or none): archive order.  mode 1: several folders, sequential: members with an
@@ -165,17 +176,23 @@ Definition prepare_dest : M unit :=
       end)
   end.
 
-Definition extract (es : list entry) (mode : Z) : M unit :=
+(* repaired = true: the code as it is; false: the code before the real-path checks (kept for the regression
+   witness) *)
+Definition extract_gen (repaired : bool) (es : list entry) (mode : Z) : M unit :=
   let* _ := prepare_dest in
+  let* root := (if repaired then (let* q := real_root in ret (Some q)) else ret None) in
   let* r := register es [] (mkR [] [] []) in
-  let* _ := make_dirs (sort_paths (rev (r_dirs r))) in
-  let* _ := extract_each (worker_order mode (rev (r_out r))) in
-  post_pass (rev (r_files r)).
+  let* _ := make_dirs root (sort_paths (rev (r_dirs r))) in
+  let* _ := extract_each root (worker_order mode (rev (r_out r))) in
+  post_pass root (rev (r_files r)).
+Definition extract := extract_gen true.
 
 End Extract.
 
 Definition extract_fs (f : fs) (cwd : rpath) (dest : option ppath) (es : list entry) (mode : Z) : out unit :=
   extract cwd dest es mode (mkSt f []).
+Definition extract_fs_unrepaired (f : fs) (cwd : rpath) (dest : option ppath) (es : list entry) (mode : Z) : out unit :=
+  extract_gen cwd dest false es mode (mkSt f []).
 
 (* ------------------------------------------------------------------ dispatcher (FN 120-159) *)
 Definition of_entry (t : tree) : entry :=
@@ -209,5 +226,10 @@ Definition fs_dispatch (fn : Z) (a : tree) : tree :=
   | 126 => TL (map t_ppath (sort_paths (map of_ppath (of_TL a))))
   (* FN 127 fs_joinstr : (ppath str) -> ppath *)
   | 127 => t_ppath (pjoin (of_ppath (tnth a 0)) (of_str (tnth a 1)))
+  (* FN 128 fs_realpath : (fs cwd ppath) -> () | (rpath) *)
+  | 128 => t_opt t_rpath (py_realpath (of_fs (tnth a 0)) (of_rpath (tnth a 1)) (of_ppath (tnth a 2)))
+  (* FN 129 fs_extract_unrepaired : (fs cwd dest? entries mode) -> (result effects fs) *)
+  | 129 => t_out (extract_fs_unrepaired (of_fs (tnth a 0)) (of_rpath (tnth a 1)) (of_opt of_ppath (tnth a 2))
+                                        (map of_entry (of_TL (tnth a 3))) (of_TI (tnth a 4)))
   | _ => TL [TI (-2)]
   end.
